@@ -173,14 +173,14 @@ Definition opt_nat_eqb (a b : option nat) : bool :=
   | _, _ => false
   end.
 
+(* _parse_port: int(port), a ValueError means "not specified" *)
+Definition parse_port (port : str) (default_port : option Z) : option Z :=
+  match py_int port with Some n => Some n | None => default_port end.
+
 Definition parse_host (host : str) (default_port : option Z) : res (str * option Z) :=
   if startswith host [91] then
     match rfind2 93 58 host with
-    | Some pos =>
-      match py_int (skipn (pos + 2) host) with
-      | Some n => Ok (firstn (pos - 1) (skipn 1 host), Some n)
-      | None => Crash ValueError
-      end
+    | Some pos => Ok (firstn (pos - 1) (skipn 1 host), parse_port (skipn (pos + 2) host) default_port)
     | None => Ok (removelast (skipn 1 host), default_port)
     end
   else
@@ -188,10 +188,7 @@ Definition parse_host (host : str) (default_port : option Z) : res (str * option
     if opt_nat_eqb pos None || negb (opt_nat_eqb pos (find_chr 58 host))
     then Ok (host, default_port)
     else let '(name, _, port) := partition_chr 58 host in
-         match py_int port with
-         | Some n => Ok (name, Some n)
-         | None => Crash ValueError
-         end.
+         Ok (name, parse_port port default_port).
 
 (* ------------------------------------------------------------------ unquote_string *)
 
